@@ -368,6 +368,61 @@ def generate(repo):
                 'Definition g_dist_fields : list string := %s.' % (coq_list(sty), coq_list([coq_str(x) for x in tup])))
     out.add('g_phospho', phospho)
 
+    # ---- HTML rendering and palette
+    def html():
+        f = S('get_HTMLColorString')
+        body = strip_doc(f.body)
+        src = [ast.unparse(x) for x in body]
+        need(src[1] == 'count = -1' and src[-1] == 'return colorString', 'HTML prologue/epilogue')
+        head = const(body[0].value)
+        need(isinstance(body[2], ast.For) and ast.unparse(body[2].iter) == 'self.seq', 'HTML loop')
+        lb = body[2].body
+        ls = [ast.unparse(x) for x in lb]
+        need(ls[0] == 'count = count + 1', 'HTML count increment first')
+        mods = []
+        for st in lb[1:3]:
+            need(isinstance(st, ast.If) and isinstance(st.test, ast.Compare) and ast.unparse(st.test.left).startswith('np.mod(count, ')
+                 and const(st.test.comparators[0]) == 0 and len(st.body) == 1, 'HTML block test')
+            k = const(st.test.left.args[1])
+            frag = const(st.body[0].value.right)
+            need(ast.unparse(st.body[0]).startswith('colorString = colorString + '), 'HTML block append')
+            mods.append((k, frag))
+        need(ls[3] == 'color = self.aminoAcidColorMap[residue]', 'HTML colour lookup')
+        fmt = lb[4].value
+        need(isinstance(fmt, ast.BinOp) and isinstance(fmt.op, ast.Mod) and
+             ast.unparse(fmt.right) == '(colorString, color, residue)', 'HTML span format')
+        tail = const(body[3].value.right)
+        need(ast.unparse(body[3]).startswith('colorString = colorString + '), 'HTML footer append')
+        return ('Definition g_html_header : string := %s.\nDefinition g_html_footer : string := %s.\n'
+                'Definition g_html_span_format : string := %s.\n'
+                'Definition g_html_blocks : list (nat * string) := %s.' % (
+                    coq_str(head), coq_str(tail), coq_str(const(fmt.left)),
+                    coq_list(['(%d%%nat, %s)' % (k, coq_str(fr)) for k, fr in mods])))
+    out.add('g_html', html)
+
+    def palette():
+        f = S('set_HTMLColorResiduePalette')
+        body = strip_doc(f.body)
+        src = ast.unparse(f)
+        cols = None
+        for n in ast.walk(f):
+            if isinstance(n, ast.Compare) and isinstance(n.ops[0], ast.NotIn) and ast.unparse(n.left) == 'colorDict[i]':
+                cols = str_list(n.comparators[0])
+        need(cols is not None, 'colour whitelist')
+        need(ast.unparse(body[0]) == 'valid = {}' and isinstance(body[1], ast.For)
+             and ast.unparse(body[1].iter) == 'aminoacids.ONE_TO_THREE', 'palette validation loop')
+        lb = body[1].body
+        need(isinstance(lb[0], ast.If) and ast.unparse(lb[0].test) == 'i not in colorDict' and isinstance(lb[0].body[0], ast.Raise),
+             'missing-key check')
+        need(isinstance(lb[1], ast.If) and isinstance(lb[1].body[0], ast.Raise), 'colour check raises')
+        need(ast.unparse(lb[2]) == 'valid[i] = colorDict[i].lower()', 'valid update')
+        need([ast.unparse(x) for x in body[2:]] == ['self.aminoAcidColorMap = {}',
+             'for i in valid:\n    self.aminoAcidColorMap[i] = valid[i]'], 'commit only after full validation')
+        init = ast.unparse(S('__init__'))
+        need('self.set_HTMLColorResiduePalette(aminoacids.DEFAULT_COLOR_PALETTE)' in init, '__init__ installs the default palette')
+        return 'Definition g_colours : list string := %s.' % coq_list([coq_str(c) for c in cols])
+    out.add('g_palette', palette)
+
     # ---- Omega, Omega_seq, kappa_X, __parse_group
     def omega():
         f = S('Omega')
